@@ -24,25 +24,28 @@ struct Case {
     /// 3 `Clone(bound())` on the FIRST VARIANT (whose fields are concrete): later variants keep their default bounds
     bound: usize,
     /// concrete flavours: 0 none, 1 field type `RecI` (inherent methods named clone / clone_from), 2 tuple-typed
-    /// fields `(Rec, u8)`, 3 `#[repr(C)]` on the item
+    /// fields `(Rec, u8)`, 3 `#[repr(C)]` on the item, 4 the definition comes out of a `macro_rules!` macro that gets
+    /// the field type `Rec` as a `ty` fragment, 5 as an `ident` fragment (the token keeps the span of the macro's caller)
     special: usize,
     entry: Entry,
 }
 
 fn gen(ch: &mut Ch, thorough: bool) -> Option<Case> {
     // wide bodies (two-digit field positions) on three fixed shapes, otherwise Sh(n_v, n_f)
-    let wide = ch.pick(4);
+    let wide = ch.pick(5);
     let shape = match wide {
         0 => if thorough { pick_shape(ch, 4, 3, false) } else { pick_shape(ch, 3, 2, false) },
         1 => Shape { is_enum: false, variants: vec![VShape { kind: SKind::Tuple, n: 13 }] },
         2 => Shape { is_enum: false, variants: vec![VShape { kind: SKind::Named, n: 12 }] },
-        _ => Shape { is_enum: true, variants: vec![VShape { kind: SKind::Tuple, n: 11 }, VShape { kind: SKind::Named, n: 12 }, VShape { kind: SKind::Unit, n: 0 }] },
+        3 => Shape { is_enum: true, variants: vec![VShape { kind: SKind::Tuple, n: 11 }, VShape { kind: SKind::Named, n: 12 }, VShape { kind: SKind::Unit, n: 0 }] },
+        // many variants (clone_from has one arm per variant plus the replace-the-whole-value arm)
+        _ => Shape { is_enum: true, variants: [(SKind::Tuple, 1), (SKind::Unit, 0), (SKind::Named, 1), (SKind::Tuple, 2), (SKind::Unit, 0), (SKind::Tuple, 1), (SKind::Named, 2), (SKind::Unit, 0), (SKind::Tuple, 1), (SKind::Tuple, 1)].iter().map(|&(kind, n)| VShape { kind, n }).collect() },
     };
     let generic = ch.flag();
     let with_copy = ch.flag();
     let raw = ch.flag();
     let bound = ch.pick(4);
-    let special = ch.pick(4);
+    let special = ch.pick(6);
     let entry = *ch.of(&Entry::BOTH);
     if wide != 0 && (raw || bound != 0 || special != 0) {
         return None;
@@ -136,7 +139,11 @@ fn build_inner(c: &Case, tier: &str) -> XCase {
     let selfty = if c.generic { "X<Rec>" } else { "X" };
     let mut s = String::new();
     s.push_str("use derive_ex::{derive_ex, Ex};\nuse dxrt::{Rec, RecC, RecG, RecI, take_log, take_log_str};\n");
-    s.push_str(&format!("{head}\n{}{}\ntype S = {selfty};\n", if c.special == 3 { "#[repr(C)]\n" } else { "" }, item.print()));
+    if c.special == 4 || c.special == 5 {
+        s.push_str(&format!("macro_rules! mk_item {{ ($t:{}) => {{\n{head}\n{}\n}} }}\nmk_item!(Rec);\ntype S = {selfty};\n", if c.special == 4 { "ty" } else { "ident" }, crate::c10::replace_word(&item.print(), "Rec", "$t")));
+    } else {
+        s.push_str(&format!("{head}\n{}{}\ntype S = {selfty};\n", if c.special == 3 { "#[repr(C)]\n" } else { "" }, item.print()));
+    }
     // view
     s.push_str("fn view(x: &S) -> String {\n    match x {\n");
     for vi in 0..sh.variants.len() {
@@ -156,7 +163,7 @@ fn build_inner(c: &Case, tier: &str) -> XCase {
     }
     s.push_str("        _ => unreachable!(),\n    }\n}\n");
     let nv = sh.variants.len();
-    s.push_str(&format!("pub fn run() -> String {{\n    let mut out = String::new();\n    for va in 0..{nv} {{\n        let a = mk(va, 0);\n        take_log();\n        let c = a.clone();\n        out.push_str(&format!(\"clone {{}}:{{}}|{{}}|{{}};\", va, take_log_str(), view(&c), view(&a)));\n    }}\n    for va in 0..{nv} {{ for vb in 0..{nv} {{\n        let mut a = mk(va, 0);\n        let b = mk(vb, 100);\n        take_log();\n        a.clone_from(&b);\n        out.push_str(&format!(\"clone_from {{}}<-{{}}:{{}}|{{}}|{{}};\", va, vb, take_log_str(), view(&a), view(&b)));\n    }} }}\n    out\n}}\n"));
+    s.push_str(&format!("pub fn run() -> String {{\n    let mut out = String::new();\n    for va in 0..{nv} {{\n        let a = mk(va, 0);\n        take_log();\n        let c = a.clone();\n        out.push_str(&format!(\"clone {{}}:{{}}|{{}}|{{}};\", va, take_log_str(), view(&c), view(&a)));\n    }}\n    for va in 0..{nv} {{ for vb in 0..{nv} {{\n        let mut a = mk(va, 0);\n        let b = mk(vb, 1000);\n        take_log();\n        a.clone_from(&b);\n        out.push_str(&format!(\"clone_from {{}}<-{{}}:{{}}|{{}}|{{}};\", va, vb, take_log_str(), view(&a), view(&b)));\n    }} }}\n    out\n}}\n"));
     // reference
     let viewr = |vi: usize, base: u32| format!("{}[{}]", sh.vname(vi), ids(base, vi, sh.variants[vi].n).iter().map(|i| i.to_string()).collect::<Vec<_>>().join(","));
     let mut exp = String::new();
@@ -166,8 +173,8 @@ fn build_inner(c: &Case, tier: &str) -> XCase {
     }
     for va in 0..nv {
         for vb in 0..nv {
-            let log: Vec<String> = if va == vb && c.special != 2 { ids(0, va, sh.variants[va].n).iter().zip(ids(100, vb, sh.variants[vb].n)).map(|(a, b)| format!("clone_from({a}<-{b})")).collect() } else { ids(100, vb, sh.variants[vb].n).iter().map(|i| format!("clone({i})")).collect() };
-            exp.push_str(&format!("clone_from {}<-{}:{}|{}|{};", va, vb, log.join(","), viewr(vb, 100), viewr(vb, 100)));
+            let log: Vec<String> = if va == vb && c.special != 2 { ids(0, va, sh.variants[va].n).iter().zip(ids(1000, vb, sh.variants[vb].n)).map(|(a, b)| format!("clone_from({a}<-{b})")).collect() } else { ids(1000, vb, sh.variants[vb].n).iter().map(|i| format!("clone({i})")).collect() };
+            exp.push_str(&format!("clone_from {}<-{}:{}|{}|{};", va, vb, log.join(","), viewr(vb, 1000), viewr(vb, 1000)));
         }
     }
     let mut atoms = BTreeSet::new();
@@ -180,7 +187,7 @@ fn build_inner(c: &Case, tier: &str) -> XCase {
     atoms.insert(format!("special={}", c.special));
     atoms.insert(format!("nvariants={}", nv));
     XCase {
-        text: format!("{} {} {}{}", c.entry.name(), list, if c.special == 3 { "#[repr(C)] " } else { "" }, item.print()),
+        text: format!("{} {} {}{}", c.entry.name(), list, match c.special { 3 => "#[repr(C)] ", 4 => "[out of a macro_rules! macro, Rec as a ty fragment] ", 5 => "[out of a macro_rules! macro, Rec as an ident fragment] ", _ => "" }, item.print()),
         code: s,
         expected: exp,
         atoms,
